@@ -2,7 +2,7 @@
 """Regenerates MANIFEST.json from the table below (run after adding a check)."""
 import json, subprocess
 
-HOOK_COMMITS = ["102a258", "f921dc1"]
+HOOK_COMMITS = ["102a258", "f921dc1", "5968ef4"]
 
 CHECKS = {
  "C13": dict(level="model_checking", engine="E1-sequences",
